@@ -71,7 +71,7 @@ pub enum Case {
 }
 
 /// Fixed key pool, built without going through the parsers
-fn pool() -> [Key; 12] {
+fn pool() -> [Key; POOL] {
     use KeyName::*;
     [
         Key::new(Char('a'), KeyMod::EMPTY),
@@ -86,9 +86,16 @@ fn pool() -> [Key; 12] {
         Key::new(Esc, KeyMod::EMPTY),
         Key::new(Char('b'), KeyMod::CTRL | KeyMod::ALT),
         Key::new(MouseLeft, KeyMod::PRESS),
+        // keys that differ from the ones above only in the modifier bits terminals rarely send
+        Key::new(Char('a'), KeyMod::CAPSLOCK),
+        Key::new(Char('a'), KeyMod::NUMLOCK),
+        Key::new(Char('a'), KeyMod::SUPER),
+        Key::new(Char('b'), KeyMod::HYPER | KeyMod::META),
+        Key::new(Enter, KeyMod::CAPSLOCK | KeyMod::NUMLOCK),
+        Key::new(MouseLeft, KeyMod::EMPTY),
     ]
 }
-const POOL: usize = 12;
+const POOL: usize = 18;
 
 fn keys_of(chord: &[u8], pool: &[Key; POOL]) -> Vec<Key> {
     chord.iter().map(|k| pool[*k as usize % POOL]).collect()
@@ -539,8 +546,10 @@ fn check_parse(text: &str, ctx: &mut Ctx) -> Result<(), Fail> {
     Ok(())
 }
 
-const MODS: [&str; 8] = [
-    "alt", "ctrl", "shift", "press", "super", "hyper", "meta", "capslock",
+// the last ones are not modifier names of the unchanged tree (parse errors there); whatever a tree
+// accepts has to survive printing and re-parsing
+const MODS: [&str; 13] = [
+    "alt", "ctrl", "shift", "press", "super", "hyper", "meta", "capslock", "numlock", "control", "cmd", "win", "lock",
 ];
 const NAMES: [&str; 40] = [
     "left",
